@@ -386,8 +386,9 @@ pub fn c11_strategy() -> BoxedStrategy<SchedConvCase> {
         proptest::option::weighted(0.5, (any::<proptest::sample::Index>(), streamed, 0u8..3)),
         proptest::collection::vec(0usize..3000, 0..3),
         tape_strategy(200),
+        any::<u8>(),
     )
-        .prop_map(|(smalls, streamed, cuts, tape)| {
+        .prop_map(|(smalls, streamed, cuts, tape, rk)| {
             let mut framings: Vec<Framing> = smalls;
             let n = framings.len();
             let mut mode = 0u8;
@@ -403,7 +404,17 @@ pub fn c11_strategy() -> BoxedStrategy<SchedConvCase> {
             for (i, f) in framings.iter().cloned().enumerate() {
                 let has_body = !matches!(f, Framing::None);
                 conv.reqs.push(gen::build_req(i as u32, if has_body { "POST".into() } else { "GET".into() }, String::new(), "HTTP/1.1", vec![Hdr::new("Host", "h")], f.clone(), None, 1, 0, None, false));
-                let read = if is_streamed(&f) { ReadPlan::ToEof { buf: 900, extra: 0 } } else if has_body && i % 2 == 0 { ReadPlan::ToEof { buf: 300, extra: 0 } } else { ReadPlan::None };
+                let read = if is_streamed(&f) {
+                    // every entry point of std::io::Read must release the successor at end-of-body
+                    match rk % 7 {
+                        0 => ReadPlan::ToEof { buf: 900, extra: 0 },
+                        k => ReadPlan::Std { how: k - 1 },
+                    }
+                } else if has_body && i % 2 == 0 {
+                    ReadPlan::ToEof { buf: 300, extra: 0 }
+                } else {
+                    ReadPlan::None
+                };
                 progs.push(Prog { read, finish: Finish::Respond { status: 200, body_len: 5, declared: true, threshold: None } });
             }
             let script = vec![Step::Send { from: 0, to: 0 }, Step::HalfClose];
